@@ -142,14 +142,38 @@ def err_variants_rule(F, reachable):
         return None
     handled = set()
     has_panic_arm = False
-    for n in FX.walk(fn["body"]):
-        if n["k"] == "Match":
-            for arm in n["arms"]:
-                p = arm["pat"]
-                if p["k"] in ("ExprPat", "StructPat", "TupleStructPat") and "res" in p:
-                    handled.add(p["res"].get("path", "").split("::")[-1])
-                elif p["k"] == "Wild":
+    # which variants the conversion maps to a value (and which reach its panic) is decided by interpreting it once per
+    # variant -- independent of how the match is spelled (wildcard arm, Option + unwrap_or_else, explicit lists)
+    adt = F.adts.get("errors::ProofError")
+    term_ok = adt is not None
+    if term_ok:
+        from . import harness as H_
+        from .alg import Enum as Enum_, Opaque as Opaque_, Unanalysable as Unan_
+
+        for var in adt["variants"]:
+            payload = [Opaque_("error-payload") for _ in var["fields"]]
+            try:
+                H_.new_interp(F).call_fn(frm, [Enum_("errors::ProofError", var["name"], payload)])
+                handled.add(var["name"])
+            except Unan_ as u:
+                if "reachable panic" in u.msg:
                     has_panic_arm = True
+                else:
+                    term_ok = False
+                    break
+            except Exception:
+                term_ok = False
+                break
+    if not term_ok:
+        handled = set()
+        for n in FX.walk(fn["body"]):
+            if n["k"] == "Match":
+                for arm in n["arms"]:
+                    p = arm["pat"]
+                    if p["k"] in ("ExprPat", "StructPat", "TupleStructPat") and "res" in p:
+                        handled.add(p["res"].get("path", "").split("::")[-1])
+                    elif p["k"] == "Wild":
+                        has_panic_arm = True
     constructed = {}
     for p in reachable:
         f = F.fns.get(p)
